@@ -159,6 +159,25 @@ func main() {
 			try(func() { r := a.DescribeMode(m, mode); record("a.DescribeMode", 0, r == nil, false, r) })
 		}
 	}
+	for _, x := range append(ifaces, (*a.U)(nil), &a.U{}, fmt.Errorf("e")) {
+		x := x
+		try(func() { r := a.Multi(x); record("a.Multi", 0, r == nil, true, r) })
+		for _, bb := range bools {
+			try(func() { r := a.MultiErr(x, bb); record("a.MultiErr", 0, r == nil, true, r) })
+		}
+	}
+	for _, x := range ifaces {
+		x := x
+		try(func() { r := a.MultiNil(x); record("a.MultiNil", 0, r == nil, true, r) })
+	}
+	try(func() { r := a.MultiTyped(); record("a.MultiTyped", 0, r == nil, true, r) })
+	for _, u := range []uintptr{0, 4096} {
+		try(func() { r := a.ConvM(u); record("a.ConvM", 0, r == nil, false, r) })
+		try(func() { r := a.ConvMCaller(u); record("a.ConvMCaller", 0, r == nil, false, r) })
+		try(func() { r := a.ConvT(u); record("a.ConvT", 0, r == nil, false, r) })
+		try(func() { r := a.ConvTCaller(u); record("a.ConvTCaller", 0, r == nil, false, r) })
+		try(func() { r := a.ConvTIface(u); record("a.ConvTIface", 0, r == nil, true, r) })
+	}
 	for key, o := range table {
 		fmt.Println(key, o.returned, o.outerNil, o.outerNon, o.innerNil, o.innerNon)
 	}
